@@ -268,6 +268,17 @@ def run_small(case):
         qb = [int(B1.query(k)) for k in keys]
     sut(A1.merge, B1)
     sut(B2.merge, A2)
+    # the argument stays unchanged however often it is merged (a target that aliases the argument's table after
+    # the first merge would change it on the second)
+    b_tab = np.array(B1.cms, copy=True)
+    a_tab = np.array(A1.cms, copy=True)
+    sut(A1.merge, B1)
+    if not np.array_equal(B1.cms, b_tab) or not np.array_equal(B1.cms.reshape(-1), b):
+        raise Violation(f"{lab}: a second a.merge(b) changed b", "merge-mutates-other")
+    sut(A1.add, b"probe", 1)
+    if not np.array_equal(B1.cms.reshape(-1), b):
+        raise Violation(f"{lab}: an add to the merged sketch changed the argument of the earlier merge", "merge-mutates-other")
+    A1.cms[:] = a_tab
     if kind == "linear":
         if not np.array_equal(A1.cms, B2.cms):
             raise Violation(f"{lab}: a.merge(b) and b.merge(a) give different tables", "merge-not-commutative")
